@@ -63,6 +63,10 @@ CLAIMED = {
             "Lean 4 theorems parametric in an uninterpreted carrier (dense_spec, sparse_spec, pixels_spec, bias_alias_sound, missing_column_error, divisive_default_iff, contracts) + bit-for-bit differential correspondence with Lean Float on every window and output form",
             "Proof: for every window, weight vector and raw content each balanced value is the product of exactly the raw value, the row bin's weight and the column bin's weight (reciprocals when divisive; divisive by default exactly for KR/VC/VC_SQRT), the aliasing shortcut equals slicing the column range, a missing column is an error in all forms. The model instantiated at IEEE binary64 is compared bit for bit with Cooler.matrix(balance=...) in dense/sparse/pixel form and with cooler dump -b; a pure re-bracketing of the product is a free choice checked by contract.",
             "Trusted: Lean kernel; Lean Float = IEEE binary64 (checked against numpy on random bit patterns every run); model fed with the raw result of the same query so that range-query bugs are C03's."),
+    "C05": ("DESIGN.md §5 C05",
+            "Lean 4 theorems (binAssign_var_correct, binAssign_fixed_correct via C20.getBinsize_truthful, assign_le_of_lex, sanitize_count_once, aggregated_eq_spec, sanitize_reflect_upper, sanitize_order_independent, sanitize_one_based, tabix_correct) + exhaustive single-record and seeded multiset correspondence through the API, the text loaders and the tabix loader",
+            "Proof: for positions inside their chromosome the assigned bin is the bin containing the position (both paths) and lies on that chromosome; the aggregated output holds one unit per retained record at its pixel after orientation, total = number of retained records, independent of record order; one-based input is the zero-based input shifted by one; positions < 0 or > length are rejected. Full rejection at position == length is NOT proved: recorded finding D13 with a machine-checked witness, matched narrowly by Lean's atLength predicate and the variant oracle.",
+            "Trusted: Lean kernel; model tied by correspondence; pandas Categorical/searchsorted and pysam fetch are primitives; HDF5Aggregator/PairixAggregator not modelled."),
 }
 
 NOT_YET = {}
